@@ -162,10 +162,11 @@ def build_file(passes, near=False):
 
 def check_file(npass: int, nch: int, nb: int, f0: int, f1: int, inc: bool, near: bool = False) -> bool:
     """
-    pre: 1 <= npass <= 2 and 1 <= nch <= 2 and 1 <= nb <= 2
+    pre: 1 <= npass <= 2 and 1 <= nch <= 2 and 0 <= nb <= 2
     pre: 1 <= f0 <= 2 and 1 <= f1 <= 2
     post: _
     """
+    # nb = 0: a log pass whose header is followed directly by the end-of-pass marker (no data): a frame array with the header's channels, no frames
     frames = [f0, f1][:nb]
     syms = [9, 7]
     passes = []
